@@ -360,13 +360,13 @@ def shared(ctx):
 
 def shared_mapping(ctx):
     ob = ctx.ob("C01.7", "distinct port addresses reach distinct DRAM locations and the burst alignment matches the burst the PHY moves per command "
-                         "(shared with C06.1 partition and C06.5 alignment): otherwise one write lands on another address's bytes", 20)
+                         "(shared with C06.1 partition, C06.4 A10 handling and C06.5 alignment): otherwise one write lands on another address's bytes", 20)
     from ..report import Ctx
     from . import c06
     sub = Ctx("C06", ctx.tier, ctx.seed, ctx.repo)
     c06.run(sub)
     for o in sub.obligations:
-        if o.oid in ("C06.1", "C06.5"):
+        if o.oid in ("C06.1", "C06.4", "C06.5"):
             for i in o.instances[:150]:
                 ob.instance(o.oid + ": " + i["what"], i["detail"] or "ok")
             for r in o.refutations:
